@@ -616,6 +616,28 @@ class AxisEval:
                                                            lineno=t.lineno, col_offset=t.col_offset), 0)
                         if tr is not None and vr is not None and len(vr) <= len(tr):
                             self._broadcast(s, tr, vr)
+                for t in tg:
+                    # x.shape = (a, b): an in-place reshape - the new extents must be the extents x has
+                    if isinstance(t, ast.Attribute) and t.attr == 'shape' and isinstance(s.value, (ast.Tuple, ast.List)):
+                        cur = self.roles(t.value)
+                        if cur is None and isinstance(t.value, ast.Name):
+                            # the base of an attribute store is not a recorded load: take the assignment that immediately precedes
+                            # in the same block
+                            for blk in ast.walk(f.node):
+                                for fld in ('body', 'orelse', 'finalbody'):
+                                    seq = getattr(blk, fld, None)
+                                    if isinstance(seq, list) and s in seq:
+                                        prev = [x for x in seq[:seq.index(s)] if isinstance(x, ast.Assign) and isinstance(x.targets[0], ast.Name)
+                                                and x.targets[0].id == t.value.id]
+                                        if prev:
+                                            cur = self.roles(prev[-1].value)
+                        new = [self.size_role(x) if not (isinstance(x, ast.Constant) and x.value == 1) else '1' for x in s.value.elts]
+                        if cur is not None and all(is_def(r) for r in cur) and all(r is not None for r in new):
+                            have = sorted(r for r in cur if r != '1')
+                            want = sorted(r for r in new if r != '1')
+                            if have != want:
+                                self.clash(s, f'`{norm(s)[:90]}`: `{norm(t.value)[:30]}` has axes ({", ".join(cur)}), the shape assigned to it '
+                                              f'has extents of ({", ".join(new)}): the sizes only agree by coincidence')
             elif isinstance(s, ast.AugAssign):
                 n_stmt += 1
                 if isinstance(s.target, ast.Name):
